@@ -5,8 +5,8 @@
    Events:  [e |-> "ver", v]        the firmware reported protocol version v (fed through
                                     PlatformService._platform_callback)
             [e |-> "plat", ch, d]   another packet on the PLATFORM port (channel ch, data bytes d) delivered to the
-                                    registered port callbacks; it negotiates a version only if it is a
-                                    well-formed protocol-version answer (channel 1, first byte 0, two bytes)
+                                    registered port callbacks outside a fetch: never a negotiation
+                                    (an unsolicited protocol-version answer is ignored since repair 11c63c8)
             [e |-> "xmode", v]      Commander.set_client_xmode(v)
             [e |-> "call", cmd, args, out, pks, nq]   one API call; pks = what the link serialised of this
                                     call's packet objects before the call returned, nq = how many of its
@@ -74,7 +74,7 @@ MVer == /\ Ev.e = "ver"
         /\ Conform(D!SetVersion(Ev.v))
 
 MPlat == /\ Ev.e = "plat"
-         /\ mver' = (IF Ev.ch = 1 /\ Len(Ev.d) >= 2 /\ Ev.d[1] = 0 THEN Ev.d[2] ELSE mver)
+         /\ mver' = mver      \* outside a fetch nothing negotiates (repair 11c63c8); a negotiation is a "ver" event
          /\ UNCHANGED <<mxmode, mpend, bad, badAt, badField>>
          /\ Conform(D!PlatformPacket(Ev.ch, Ev.d))
 
